@@ -1,11 +1,17 @@
 use crate::fw::*;
 
+pub mod c03_arith;
+pub mod c04_jump;
 pub mod c12_stack;
 pub mod c13_gas;
+pub mod c27_bytecode;
 pub mod c32_blob;
 
 pub fn dispatch(ctx: &Ctx) -> i32 {
     match ctx.id.as_str() {
+        "C03" => c03_arith::run(ctx),
+        "C04" => c04_jump::run(ctx),
+        "C27" => c27_bytecode::run(ctx),
         "C12" => c12_stack::run(ctx),
         "C13" => c13_gas::run(ctx),
         "C32" => c32_blob::run(ctx),
